@@ -6,4 +6,5 @@ mkdir -p work evidence replays
 (cd harness && cargo build --release && cargo build --profile dbg) || exit 1
 (cd tsan && RUSTFLAGS="-Zsanitizer=thread --cap-lints allow" cargo +nightly build -Zbuild-std --target x86_64-unknown-linux-gnu --release) || exit 1
 (cd harness && RUSTFLAGS="--cap-lints allow" cargo +nightly fuzz build) || exit 1
+for v in nopad pad8 pad16 pad24; do (cd sentinel && RUSTFLAGS="--cfg $v --cap-lints allow" cargo build --release --target-dir target_$v) || exit 1; done
 echo "setup ok"
